@@ -219,9 +219,16 @@ func (env *fcEnv) provider(s string) gmsl.EventProvider {
 		return nil
 	}
 	table := map[string]fcKind{}
+	limit := -1 // `max=<k>`: at most k events per call
 	for _, ent := range splitList(s, ",") {
 		kv := strings.SplitN(ent, "=", 2)
 		if len(kv) != 2 {
+			continue
+		}
+		if kv[0] == "max" {
+			if limit < 0 {
+				limit, _ = strconv.Atoi(kv[1])
+			}
 			continue
 		}
 		var id string
@@ -268,6 +275,9 @@ func (env *fcEnv) provider(s string) gmsl.EventProvider {
 			return nil, errors.New("provider error (scripted)")
 		}
 		env.log = append(env.log, "E"+strings.Join(shown, "+"))
+		if limit >= 0 && len(out) > limit {
+			out = out[:limit]
+		}
 		return out, nil
 	}
 }
@@ -1098,8 +1108,11 @@ func fcTwinScenario(r *Rng, ver string, kind string, place int, provMode string)
 		extra = []string{Pick(r, []string{"badsig", "missing", "disallowed"})}
 	}
 	sc := fcStateScenario(r, ver, extra, provMode)
-	if sc == nil || sc.rm.g.fmtV != 1 {
+	if sc == nil || (sc.rm.g.fmtV != 1 && kind != "resigned") {
 		return nil
+	}
+	if kind == "resigned" {
+		return fcResignedTwin(r, sc, place, provMode)
 	}
 	rm := sc.rm
 	// the genuine event: part of the current state (so it is in both lists), not the create event
@@ -1195,6 +1208,87 @@ func fcTwinScenario(r *Rng, ver string, kind string, place int, provMode string)
 		}
 	}
 	sc.labels = append(sc.labels, "twin-"+kind, "twin-place"+strconv.Itoa(place))
+	return sc
+}
+
+// fcResignedTwin: EVERY room version. The twin is the genuine event with its signature replaced: the event ID is the
+// same (a member of the event in versions 1 and 2, a reference hash that does not cover the signatures in the later
+// ones), the content hash is intact, the signature check fails. Placements as for the other twins.
+func fcResignedTwin(r *Rng, sc *fcScenario, place int, provMode string) *fcScenario {
+	rm := sc.rm
+	var cands []*Ev
+	for _, e := range rm.state() {
+		if e != rm.create {
+			cands = append(cands, e)
+		}
+	}
+	g := Pick(r, cands)
+	var m map[string]interface{}
+	if json.Unmarshal(g.JSON, &m) != nil {
+		return nil
+	}
+	forged := make([]byte, 64)
+	for i := range forged {
+		forged[i] = 1
+	}
+	m["signatures"] = map[string]interface{}{domainOf(string(g.PDU.SenderID())): map[string]string{"ed25519:1": base64.RawStdEncoding.EncodeToString(forged)}}
+	raw, _ := json.Marshal(m)
+	cj, err := gmsl.CanonicalJSON(raw)
+	if err != nil {
+		return nil
+	}
+	pdu, err := gmsl.MustGetRoomVersion(gmsl.RoomVersion(rm.ver)).NewEventFromUntrustedJSON(cj)
+	if err != nil || pdu.EventID() != g.ID || string(pdu.JSON()) == string(g.JSON) {
+		return nil
+	}
+	t := rm.add(&Ev{PDU: pdu, ID: pdu.EventID(), JSON: pdu.JSON()}, "o")
+	gTok, tTok := rm.tok(g), rm.tok(t)
+	replace := func(l []string, old, new string) ([]string, bool) {
+		out := append([]string{}, l...)
+		for i, x := range out {
+			if x == old {
+				out[i] = new
+				return out, true
+			}
+		}
+		return out, false
+	}
+	switch place {
+	case 0:
+		var ok bool
+		if sc.state, ok = replace(sc.state, gTok, tTok); !ok {
+			sc.state = append(sc.state, tTok)
+		}
+	case 1:
+		var ok bool
+		if sc.auth, ok = replace(sc.auth, gTok, tTok); !ok {
+			sc.auth = append([]string{tTok}, sc.auth...)
+		}
+	case 2:
+		sc.auth = append(sc.auth, tTok)
+	default:
+		var out []string
+		for _, x := range sc.auth {
+			if x == gTok {
+				out = append(out, tTok)
+			}
+			out = append(out, x)
+		}
+		sc.auth = out
+	}
+	sc.badsig = append(sc.badsig, rm.idx[t])
+	if !sc.nilProv && provMode != "empty" {
+		key := "#" + strconv.Itoa(rm.idx[g])
+		switch r.Intn(3) {
+		case 0:
+			sc.prov = append(sc.prov, key+"=r"+strconv.Itoa(rm.idx[g]))
+		case 1:
+			sc.prov = append(sc.prov, key+"=r"+strconv.Itoa(rm.idx[t]))
+		default:
+			sc.prov = append(sc.prov, key+"=n")
+		}
+	}
+	sc.labels = append(sc.labels, "twin-resigned", "twin-place"+strconv.Itoa(place))
 	return sc
 }
 
@@ -1442,6 +1536,36 @@ func genFedcheck(o *Out, tier string, r *Rng) {
 			}
 		}
 	}
+	// ---- the same event twice, once with its signature replaced (every room version): the copy whose signature
+	// verifies passes both checks and must stay; exactly the failing copy is dropped
+	for round := 0; round < twinRounds; round++ {
+		for _, ver := range fcVersions {
+			for place := 0; place < fcTwinPlaces; place++ {
+				mode := Pick(r, twinModes)
+				sc := fcTwinScenario(r, ver, "resigned", place, mode)
+				if sc == nil {
+					o.Count("twin.gen-failed")
+					continue
+				}
+				rm := sc.rm
+				if round%2 == 0 {
+					res := o.Do("state", ver, rm.poolArg(), joinOrDash(sc.auth, ","), joinOrDash(sc.state, ","), fcIdxList(sc.badsig), sc.provArg(), fcSigClassArg(ver, rm.pool))
+					record("state", sc, res)
+					if round == 0 && place == 0 && ver == "10" {
+						o.Sample("state(twin) " + ver + " faults=" + strings.Join(sc.labels, "+") + " auth=" + joinOrDash(sc.auth, ",") + " state=" + joinOrDash(sc.state, ",") + " badsig=" + fcIdxList(sc.badsig) + " -> " + res)
+					}
+					continue
+				}
+				u := "@newcomer:hs5"
+				join := rm.send(spec.MRoomMember, u, sp(u), map[string]interface{}{"membership": "join"}, false, nil)
+				if join == nil {
+					continue
+				}
+				res := o.Do("sendjoin", ver, rm.poolArg(), joinOrDash(sc.auth, ","), joinOrDash(sc.state, ","), fcIdxList(sc.badsig), sc.provArg(), strconv.Itoa(rm.idx[join]), fcSigClassArg(ver, rm.pool))
+				record("sendjoin", sc, res)
+			}
+		}
+	}
 	genFedcheckMore(o, tier, r)
 }
 
@@ -1549,6 +1673,72 @@ func (rm *fcRoom) stateEntry(r *Rng, e *Ev, mode string) string {
 	return strconv.Itoa(rm.idx[e]) + ";" + fcIdxList(ids) + ";" + fcIdxList(stl)
 }
 
+// fcOmitKinds: an event whose auth_events leave out ONE event of the state before it -- the one that decides.
+//   levels-message  events_default is 50; a member without power sends a message citing create and membership only
+//   levels-state    the same member sets the topic (state_default 50) without citing the power levels
+//   join-rules      a newcomer joins the public room without citing the join rules
+//   membership      a member sends a message without citing their own membership
+//   ban             a banned user joins the public room citing everything but the ban
+//   none            control: nothing is left out
+var fcOmitKinds = []string{"levels-message", "levels-state", "join-rules", "membership", "ban", "none"}
+
+func fcOmitScenario(r *Rng, ver, kind string) (*fcRoom, *Ev) {
+	rm := fcHistory(r, ver)
+	if rm == nil {
+		return nil, nil
+	}
+	us := rm.joined()
+	u := us[len(us)-1] // the last of the joined users: no power
+	if u == rm.admin || u == authUsers[1] {
+		return nil, nil
+	}
+	mk := func(typ, sender string, stateKey *string, content interface{}, omit *Ev) *Ev {
+		var auth []string
+		for _, id := range rm.authFor(typ, sender, stateKey) {
+			if omit == nil || id != omit.ID {
+				auth = append(auth, id)
+			}
+		}
+		if auth == nil {
+			auth = []string{}
+		}
+		e, cls := rm.g.MkU(typ, sender, stateKey, content, rm.prev(), auth, nil)
+		if e == nil || cls != "o" {
+			return nil
+		}
+		rm.add(e, cls)
+		rm.before[e] = rm.state()
+		return e
+	}
+	switch kind {
+	case "levels-message", "levels-state":
+		var plc map[string]interface{}
+		if json.Unmarshal(rm.pl.PDU.Content(), &plc) != nil {
+			return nil, nil
+		}
+		plc["events_default"] = 50
+		plc["state_default"] = 50
+		if rm.send(spec.MRoomPowerLevels, rm.admin, sp(""), plc, true, nil) == nil {
+			return nil, nil
+		}
+		if kind == "levels-message" {
+			return rm, mk("m.room.message", u, nil, map[string]interface{}{"body": "quiet"}, rm.pl)
+		}
+		return rm, mk("m.room.topic", u, sp(""), map[string]interface{}{"topic": "mine"}, rm.pl)
+	case "join-rules":
+		n := "@newcomer:hs5"
+		return rm, mk(spec.MRoomMember, n, sp(n), map[string]interface{}{"membership": "join"}, rm.jr)
+	case "membership":
+		return rm, mk("m.room.message", u, nil, map[string]interface{}{"body": "hi"}, rm.member[u])
+	case "ban":
+		if rm.send(spec.MRoomMember, rm.admin, sp(u), map[string]interface{}{"membership": "ban"}, true, nil) == nil {
+			return nil, nil
+		}
+		return rm, mk(spec.MRoomMember, u, sp(u), map[string]interface{}{"membership": "join"}, rm.member[u])
+	}
+	return rm, mk("m.room.message", u, nil, map[string]interface{}{"body": "hi"}, nil)
+}
+
 var fcStateModes = []string{"ok", "ok", "ok", "ok", "short", "empty", "wrong", "nonstate", "iderr", "sterr"}
 
 func genFedcheckMore(o *Out, tier string, r *Rng) {
@@ -1613,6 +1803,13 @@ func genFedcheckMore(o *Out, tier string, r *Rng) {
 		if r.Chance(30) {
 			prov = append(prov, "h"+hx([]byte("$unknown:hs1"))+"="+Pick(r, []string{"n", "e", "r0"}))
 		}
+		if r.Chance(35) {
+			// a provider that hands out at most k events per call: what the batch request leaves out is fetched by
+			// the single-ID retry inside checkAllowedByAuthEvents
+			k := Pick(r, []int{0, 1, 1, 2, 2, 3})
+			prov = append(prov, "max="+strconv.Itoa(k))
+			o.Count("chain.prov.max" + strconv.Itoa(k))
+		}
 		res := o.Do("chain", ver, rm.poolArg(), strconv.Itoa(rm.idx[root]), joinOrDash(prov, ","))
 		o.Count("chain." + strings.SplitN(res, "|", 2)[0])
 		o.Count("chain.case." + label)
@@ -1642,6 +1839,13 @@ func genFedcheckMore(o *Out, tier string, r *Rng) {
 				if round == 0 && ver == "6" {
 					o.Sample("chain(rogue-" + kind + ") " + ver + " -> " + res)
 				}
+				// the same chain against the same provider handing out at most 1 / 2 events per call: the refused
+				// event then reaches the lookup table through the single-ID retry, and must be verified all the same
+				for _, k := range []string{"1", "2"} {
+					res := o.Do("chain", ver, rm.poolArg(), strconv.Itoa(rm.idx[root]), joinOrDash(append(append([]string{}, prov...), "max="+k), ","))
+					o.Count("chain." + strings.SplitN(res, "|", 2)[0])
+					o.Count("chain.case.rogue-" + kind + ".max" + k)
+				}
 			}
 		}
 	}
@@ -1663,6 +1867,35 @@ func genFedcheckMore(o *Out, tier string, r *Rng) {
 		res := o.Do("atstate", ver, rm.poolArg(), strconv.Itoa(rm.idx[e]), allow, rm.stateEntry(r, e, mode))
 		o.Count("atstate." + strings.SplitN(res, "|", 2)[0])
 		o.Count("atstate.mode." + mode + ".allow" + allow)
+	}
+	// ---- events whose auth_events leave out a state event that decides the verdict (power levels, join rules, the
+	// sender's membership, a ban): the state before the event decides, not the event's own choice of auth events
+	omitRounds := 1
+	if tier == "thorough" {
+		omitRounds = 10
+	}
+	for round := 0; round < omitRounds; round++ {
+		for _, ver := range fcVersions {
+			for _, kind := range fcOmitKinds {
+				rm, e := fcOmitScenario(r, ver, kind)
+				if rm == nil || e == nil {
+					o.Count("atstate.omit.gen-failed")
+					continue
+				}
+				for _, allow := range []string{"0", "1"} {
+					mode := "ok"
+					if allow == "1" && r.Bool() {
+						mode = "short" // an auth event ID missing from the state IDs: validation does not short-circuit
+					}
+					res := o.Do("atstate", ver, rm.poolArg(), strconv.Itoa(rm.idx[e]), allow, rm.stateEntry(r, e, mode))
+					o.Count("atstate." + strings.SplitN(res, "|", 2)[0])
+					o.Count("atstate.omit." + kind + ".allow" + allow + "." + strings.SplitN(res, "|", 2)[0])
+					if round == 0 && ver == "10" && allow == "0" {
+						o.Sample("atstate(omit-" + kind + ") " + ver + " -> " + res)
+					}
+				}
+			}
+		}
 	}
 	// ---- LoadAndVerify / RequestBackfill
 	mkLoad := func(rm *fcRoom) (raws []string, badsig []int, prov []string, sprov []string) {
@@ -1796,6 +2029,10 @@ func genFedcheckMore(o *Out, tier string, r *Rng) {
 					}
 				}
 				prov := rm.provTable(r, rm.history, "ret")
+				if r.Chance(50) {
+					prov = append(prov, "max="+Pick(r, []string{"1", "2"}))
+					o.Count("load.case.rogue-capped-provider")
+				}
 				if round%2 == 0 {
 					res := o.Do("load", ver, rm.poolArg(), joinOrDash(raws, ","), "-", joinOrDash(prov, ","), joinOrDash(sprov, "|"), orderOf(rm, raws))
 					o.Count("load.case.rogue-" + kind)
